@@ -3,6 +3,7 @@
   existing chunk: deallocate, reset_to, reset, reset_to_start, align_to, BumpAlignGuard::drop.
 -/
 import BumpProof.Lemmas.GeomTry
+import BumpProof.Lemmas.AlignChunk
 
 set_option linter.unusedSimpArgs false
 set_option linter.unusedVariables false
@@ -398,6 +399,36 @@ theorem alignGuardDrop_ok (hc : CfgOK cfg) (h : GeomInv cfg s) {outer : Nat} (hn
   | claimed =>
     refine ⟨s, rfl, h, ?_, SameShape.refl _, hcur.symm ▸ rfl, rfl, rfl, fun i c hi => by cases hi⟩
     exact h.withMinAlign hn (fun i c hi => by rw [hcur] at hi; cases hi)
+
+/-- `BumpAlignGuard::drop`, second half: re-aligning the chunk the guard started in (when it is not the
+    current one) never faults, keeps the geometry invariant under the inner and under the outer minimum
+    alignment, and does not touch the current chunk -/
+theorem alignChunkAt_ok (hc : CfgOK cfg) (h : GeomInv cfg s) {outer : Nat} (hn : MinAlignOK outer) (st : Cur) :
+    ∃ s', alignChunkAt cfg s outer st = .ok s' ∧ GeomInv cfg s' ∧
+      (GeomInv cfg { s with minAlign := outer } → GeomInv cfg { s' with minAlign := outer }) ∧ SameShape s s' ∧
+      s'.cur = s.cur ∧ s'.minAlign = s.minAlign ∧ s'.resps = s.resps ∧
+      (∀ i, s.cur = .chunk i → s'.chunks[i]? = s.chunks[i]?) := by
+  unfold alignChunkAt
+  cases st with
+  | chunk j =>
+    by_cases hcur : s.cur = .chunk j
+    · simp only [if_pos hcur, r_pure]
+      exact ⟨s, rfl, h, id, SameShape.refl _, rfl, rfl, rfl, fun _ _ => rfl⟩
+    · simp only [if_neg hcur]
+      cases hj : s.chunks[j]? with
+      | none => exact ⟨s, rfl, h, id, SameShape.refl _, rfl, rfl, rfl, fun _ _ => rfl⟩
+      | some c =>
+        have hw := h.chunks j c hj
+        simp only [r_pure, r_ok_bind, hw.align_pos_eq hc hn hw.pos_le, liftM_ok]
+        have hmem := hw.alignPos_mem hc hn hw.pos_ge hw.pos_le
+        refine ⟨_, rfl, h.setPos hj hmem.1 hmem.2 (fun e => absurd e hcur), ?_, setPos_shape _ _ _, rfl, rfl, rfl, ?_⟩
+        · intro h2
+          exact GeomInv.setPos (s := { s with minAlign := outer }) h2 hj hmem.1 hmem.2 (fun e => absurd e hcur)
+        · intro i hi
+          rw [setPos_getElem?, if_neg]
+          intro e; subst e; exact hcur hi
+  | unallocated => exact ⟨s, rfl, h, id, SameShape.refl _, rfl, rfl, rfl, fun _ _ => rfl⟩
+  | claimed => exact ⟨s, rfl, h, id, SameShape.refl _, rfl, rfl, rfl, fun _ _ => rfl⟩
 
 end
 end Arena
